@@ -474,9 +474,10 @@ def canaries(ctx):
     sub = type(ctx)(ctx.prop, ctx.tier, ctx.seed)
     rng, nprng = random.Random(3), np.random.default_rng(3)
     cfg = D.make_cfg("U1")
-    prog, pool = GP.generate(rng, nprng, "U1", False, length=6, cfg=cfg)
+    h = D.gen_tensor(rng, nprng, "U1", rank=3, density=1.0, nmode="fit", dtype="float64")
+    prog = GP.Program("U1", False, [h], [("transpose", 0, [2, 0, 1]), ("conj", 1)], "float64")
     _, obs = GP.execute(prog, cfg)
-    k = next(i for i, o in enumerate(obs) if o and o[0][0] == "tensor" and o[0][3].size)
+    k = 0
     o = obs[k][0]
     x = o[3].copy()
     x.ravel()[np.flatnonzero(x.ravel())[0] if np.any(x) else 0] += 1e-6
